@@ -10,8 +10,10 @@ ID = "C13"
 LEVEL = "fault_enumeration"
 RULE = (
     "base scenarios (2-3 connections, pipelined requests, a response larger than the send buffer, a file_wrapper "
-    "response, an expecting request, a bystander connection) are run fault-free to list every socket call; then EVERY "
-    "placement of one fault from {ECONNRESET, EPIPE, ENOTCONN, EBADF, EINVAL, ETIMEDOUT, ENOBUFS, FIN, RST, full close} on "
+    "response, an expecting request, a reader that silently stalls in mid-response, log_socket_errors off, an IPv6 "
+    "listener, a bystander connection) are run fault-free to list every socket call; then EVERY "
+    "placement of one fault from {ECONNRESET, EPIPE, ENOTCONN, EBADF, EINVAL, ETIMEDOUT, ENOBUFS, FIN, RST, full close, DEAD = "
+    "this and every later call of the kind fails with ETIMEDOUT and the socket polls ready with the error pending} on "
     "every recv / send / accept and on the getsockopt / setsockopt / setblocking calls made while a connection is set up "
     "is executed, under the non-pre-emptive schedule plus random-walk schedules; pairs of faults are sampled. Monitors: "
     "thread of every socket close and socket-map mutation, close count per connection, listener still registered, "
@@ -53,6 +55,19 @@ BASES = [
     {"adj": {"threads": 1, "channel_request_lookahead": 0, "send_bytes": 1, "outbuf_high_watermark": 512}, "sndbuf": 512,
      "conns": [
          {"requests": [{"n": 1500, "k": "fw"}, {"n": 700, "k": "write", "w": 300}, {"n": 10, "k": "cl", "close": True}], "sndbuf": 512},
+         {"requests": [{"n": 50, "k": "cl"}], "sndbuf": 512, "delay": 0.2},
+     ], "bystander": 1},
+    # a client that silently stops reading in mid-response (no FIN, no RST) while the only worker produces
+    # more than the socket takes: the worker must come back for the other connection
+    {"adj": {"threads": 1, "channel_request_lookahead": 0, "send_bytes": 1}, "sndbuf": 512,
+     "conns": [
+         {"requests": [{"n": 4000, "k": "write", "w": 1000}], "sndbuf": 512, "reader": {"mode": "stall", "after": 300, "resume": "never"}},
+         {"requests": [{"n": 50, "k": "cl"}, {"n": 700, "k": "gen", "w": 100}], "sndbuf": 512, "delay": 0.2},
+     ], "bystander": 1},
+    # errors are not to be logged (log_socket_errors off): containment must not depend on the logging switch
+    {"adj": {"threads": 1, "channel_request_lookahead": 1, "send_bytes": 1, "log_socket_errors": False, "outbuf_high_watermark": 512}, "sndbuf": 512,
+     "conns": [
+         {"requests": [{"n": 1200, "k": "gen", "w": 400}, {"n": 10, "k": "cl", "close": True}], "sndbuf": 512, "pieces": [40, 90]},
          {"requests": [{"n": 50, "k": "cl"}], "sndbuf": 512, "delay": 0.2},
      ], "bystander": 1},
     # an IPv6 listener: accept() hands over 4-tuple peer addresses (set-up faults must be contained
@@ -194,6 +209,9 @@ def judge(scn, o, faults, acc):
         c = w.net.conns[cid]
         # a client that reset / closed the connection: the server side must be gone by the end
         gone = any(k[0] == cid and v in ("RST", "CLOSE") for k, v in faults.items())
+        dead = any(k[0] == cid and isinstance(v, str) and v.startswith("DEAD:") for k, v in faults.items())
+        if dead and injected and c.accepted and not c.server_closed and getattr(w.net, "faults_from", {}):
+            out.append(("dead-connection-not-torn-down", f"conn {cid}: every {[k[1] for k in faults][0]}() fails ({faults}) but the server side is still open at the end"))
         if gone and injected and c.accepted and not c.server_closed and (c.client_rst or c.client_closed):
             out.append(("dead-connection-not-torn-down", f"conn {cid}: client gone ({faults}) but the server side is still open at quiescence"))
     # ---- bystander
@@ -228,6 +246,8 @@ def placements(calls, nconn_targets):
                 out.append(((cid, op, n), e))
             out.append(((cid, op, n), "RST"))
             out.append(((cid, op, n), "CLOSE"))
+            # the peer vanished without FIN / RST: this call and every later one of its kind fail
+            out.append(((cid, op, n), "DEAD:%d" % errno.ETIMEDOUT))
             if op == "recv":
                 out.append(((cid, op, n), "FIN"))
         elif op in ("getsockopt", "setsockopt", "setblocking") and n == 0:
@@ -341,7 +361,7 @@ def run_shard(spec):
     else:
         rng = random.Random(spec["seed"])
         for _ in range(spec["n"]):
-            b = rng.randrange(3)
+            b = rng.choice([0, 1, 2, 3, 4])
             scn = BASES[b]
             targets = [i for i in range(len(scn["conns"])) if i != scn.get("bystander")]
             faults = {}
